@@ -243,6 +243,16 @@ def get_plan(pid):
                         trusted_base=["A-ENGINE", "A-STDLIB: Python `s in t` on str is substring containment, str ordering is code-point lexicographic (= SMT-LIB str.<)", "A-TERM"])
     if pid in ("C02", "C12", "C15"):
         return MarkerPlan(pid)
+    if pid == "C10":
+        return JobsPlan("C10", [("C10.frame", "memo_frame", {})], rtc=["memo"], level="other",
+                        technique="frame (read-set) analysis of every memoised function from the AST: uncompared fields reachable through the key parameters, and uncompared fields of returned key objects "
+                                  "that str()/evaluate read; lift to histories by the memoisation meta-lemma; cold-vs-warm differential as bounded part",
+                        trusted_base=["meta-lemma: memoising a deterministic f under key equality is unobservable iff key-equal arguments give observationally equal results",
+                                      "parameter/field annotations of the memoised functions are truthful (used only to resolve method names to class families)",
+                                      "whitelisted lazy cache MarkerExpression._specifier: filled from the compared fields by `specifier`; consistency of the specifier installed by from_specifier is C11's clause",
+                                      "law.C13 (equal keys are interchangeable) and C02 (meaning of results) supply the 'meaning' half"],
+                        explanation="proof part: for each lru_cache'd function (found by scanning the real source, so a newly memoised function is analysed too) the read-set obligations are decided statically; "
+                                    "bounded part: probe operations observed cold and after generated histories, incl. key-equal-but-differently-built operands and merged results spelled differently")
     if pid == "C14":
         jobs = [(f"C14.spec.{k}", "spec_c14", {"chunk": (k, 5)}) for k in range(5)] + [("C14.lemmas", "spec_lemmas", {}), ("C14.markers", "marker_c14", {})]
         return JobsPlan("C14", jobs, rtc=["spec_algebra", "marker_algebra"], level="other",
